@@ -389,7 +389,7 @@ class Models(object):
             if pt is not None:
                 plain = z3.InRe(v.t, z3.Plus(RE_DIGIT))
                 r = ex.fresh_int(pt, 'int')
-                pt.assume(z3.Implies(plain, r == z3.StrToInt(v.t)))
+                pt.assume_def([r], [z3.Implies(plain, r == z3.StrToInt(v.t))])
                 out.append((pt, VInt(r)))
             if pf is not None:
                 out.extend(ex.raise_(pf, ValueError, 'invalid literal for int()'))
@@ -415,8 +415,8 @@ class Models(object):
             if ok:
                 return [(path, VStr(str(c)))]
             r = ex.fresh_str(path, 'str_int')
-            path.assume(z3.Implies(v.t >= 0, r == z3.IntToStr(v.t)))
-            path.assume(z3.Implies(v.t < 0, r == z3.Concat(mk_str('-'), z3.IntToStr(-v.t))))
+            path.assume_def([r], [z3.Implies(v.t >= 0, r == z3.IntToStr(v.t)),
+                                  z3.Implies(v.t < 0, r == z3.Concat(mk_str('-'), z3.IntToStr(-v.t)))])
             return [(path, VStr(r))]
         if isinstance(v, VBool):
             return [(path, VStr(z3.If(v.t, mk_str('True'), mk_str('False'))))]
@@ -440,7 +440,7 @@ class Models(object):
         if ok:
             return [(path, VBytes(binascii.hexlify(c)))]
         r = ex.fresh_str(path, 'hex')
-        path.assume(z3.Length(r) == 2 * z3.Length(v.t))
+        path.assume_def([r], [z3.Length(r) == 2 * z3.Length(v.t)])
         path.heap[('g', 'hexlify', path.fresh())] = (v, VBytes(r))
         return [(path, VBytes(r))]
 
@@ -554,8 +554,8 @@ class Models(object):
                         nxt.append((pt, z3.Concat(acc, z3.SubString(v.t, 0, nn))))
                     if pf is not None:
                         pad = ex.fresh_str(pf, 'pad')
-                        pf.assume(z3.Length(pad) == nn - ln)
-                        pf.assume(z3.InRe(pad, z3.Star(z3.Re(mk_str('\x00')))))
+                        pf.assume_def([pad], [z3.Length(pad) == nn - ln,
+                                              z3.InRe(pad, z3.Star(z3.Re(mk_str('\x00'))))])
                         nxt.append((pf, z3.Concat(acc, v.t, pad)))
             out_states = nxt
         res = []
@@ -639,6 +639,70 @@ class Models(object):
             return self.dict_method(ex, path, recv, name, args, kw)
         if isinstance(recv, VMap):
             return self.map_method(ex, path, recv, name, args, kw)
+        if isinstance(recv, VSeq):
+            return self.seq_method(ex, path, recv, name, args, kw)
+        return None
+
+    def seq_method(self, ex, path, sv, name, args, kw):
+        """list methods on a symbolic-spine list (value semantics + write-back to where it was read)"""
+        from .exec import Unsupported
+
+        def store(t):
+            if sv.origin is None:
+                raise Unsupported('mutation of a temporary symbolic list')
+            path.heap[sv.origin] = VSeq(z3.simplify(t), sv.elem)
+        n = z3.Length(sv.t)
+        if name == 'append':
+            store(z3.Concat(sv.t, z3.Unit(sv.elem.unwrap(args[0]))))
+            return [(path, NONE)]
+        if name == 'extend':
+            other = ex.seq_of(path, args[0], like=sv)
+            store(z3.Concat(sv.t, other.t))
+            return [(path, NONE)]
+        if name == 'insert':
+            ok, c = concrete_of(args[0])
+            if ok and c == 0:
+                store(z3.Concat(z3.Unit(sv.elem.unwrap(args[1])), sv.t))
+                return [(path, NONE)]
+            raise Unsupported('insert at symbolic index')
+        if name == 'pop':
+            idx = -1
+            if args:
+                ok, idx = concrete_of(args[0])
+                if not ok or idx not in (0, -1):
+                    raise Unsupported('pop index')
+            out = []
+            pt, pf = ex.branch(path, n > 0)
+            if pt is not None:
+                # re-read: the branch may have refined nothing about sv
+                if idx == 0:
+                    v = sv.elem.wrap(z3.simplify(sv.t[0]))
+                    path_t = z3.SubString(sv.t, 1, n)
+                else:
+                    v = sv.elem.wrap(z3.simplify(sv.t[n - 1]))
+                    path_t = z3.SubString(sv.t, 0, n - 1)
+                if sv.origin is None:
+                    raise Unsupported('mutation of a temporary symbolic list')
+                pt.heap[sv.origin] = VSeq(z3.simplify(path_t), sv.elem)
+                out.append((pt, v))
+            if pf is not None:
+                out.extend(ex.raise_(pf, IndexError, 'pop from empty list'))
+            return out
+        if name == 'remove':
+            u = z3.Unit(sv.elem.unwrap(args[0]))
+            out = []
+            pt, pf = ex.branch(path, z3.Contains(sv.t, u))
+            if pt is not None:
+                i = z3.IndexOf(sv.t, u, 0)
+                if sv.origin is None:
+                    raise Unsupported('mutation of a temporary symbolic list')
+                pt.heap[sv.origin] = VSeq(z3.simplify(z3.Concat(z3.SubString(sv.t, 0, i), z3.SubString(sv.t, i + 1, n))), sv.elem)
+                out.append((pt, NONE))
+            if pf is not None:
+                out.extend(ex.raise_(pf, ValueError, 'list.remove(x): x not in list'))
+            return out
+        if name == 'copy':
+            return [(path, VSeq(sv.t, sv.elem))]
         return None
 
     def str_method(self, ex, path, s, name, args, kw):
@@ -713,8 +777,8 @@ class Models(object):
                 elif enc in ('utf-8', 'utf8') and name == 'encode':
                     # non-ASCII text encodes to some longer byte string with a byte >= 0x80
                     r = ex.fresh_str(pf, 'utf8')
-                    pf.assume(z3.Length(r) > z3.Length(s.t))
-                    pf.assume(z3.Not(z3.InRe(r, z3.Star(z3.Range(mk_str('\x00'), mk_str('\x7f'))))))
+                    pf.assume_def([r], [z3.Length(r) > z3.Length(s.t),
+                                        z3.Not(z3.InRe(r, z3.Star(z3.Range(mk_str('\x00'), mk_str('\x7f')))))])
                     out.append((pf, VBytes(r)))
                 else:
                     raise Unsupported('decode %s of non-ascii' % enc)
@@ -727,12 +791,13 @@ class Models(object):
             r = ex.fresh_str(path, 'strip')
             a = ex.fresh_str(path, 'lws')
             b = ex.fresh_str(path, 'rws')
-            path.assume(s.t == z3.Concat(a, r, b))
-            path.assume(z3.InRe(a, z3.Star(re_ws(ws))))
-            path.assume(z3.InRe(b, z3.Star(re_ws(ws))))
-            path.assume(z3.Or(z3.Length(r) == 0,
-                              z3.And(z3.Not(is_ws_char(z3.SubString(r, 0, 1), ws)),
-                                     z3.Not(is_ws_char(z3.SubString(r, z3.Length(r) - 1, 1), ws)))))
+            path.assume_def([r, a, b], [
+                s.t == z3.Concat(a, r, b),
+                z3.InRe(a, z3.Star(re_ws(ws))),
+                z3.InRe(b, z3.Star(re_ws(ws))),
+                z3.Or(z3.Length(r) == 0,
+                      z3.And(z3.Not(is_ws_char(z3.SubString(r, 0, 1), ws)),
+                             z3.Not(is_ws_char(z3.SubString(r, z3.Length(r) - 1, 1), ws))))])
             if not isb:
                 self.assumptions.add('str.strip(): whitespace = ASCII whitespace + \\x1c..\\x1f (exact for ASCII text)')
             return [(path, mk(r))]
@@ -741,7 +806,7 @@ class Models(object):
             if ok:
                 return [(path, lift(getattr(c, name)()))]
             r = ex.fresh_str(path, name)
-            path.assume(z3.Length(r) == z3.Length(s.t))
+            path.assume_def([r], [z3.Length(r) == z3.Length(s.t)])
             path.heap[('g', 'case', path.fresh())] = (name, s, mk(r))
             return [(path, mk(r))]
         if name == 'format':
@@ -752,7 +817,7 @@ class Models(object):
                 r.template = (c, [args[0]])
                 pre, post = c.split('{}')
                 cnt = args[0].t
-                path.assume(z3.Implies(cnt >= 0, r.t == z3.Concat(mk_str(pre), z3.IntToStr(cnt), mk_str(post))))
+                path.assume_def([r.t], [z3.Implies(cnt >= 0, r.t == z3.Concat(mk_str(pre), z3.IntToStr(cnt), mk_str(post)))])
             return [(path, r)]
         if name == 'join' and len(args) == 1:
             a = args[0]
